@@ -369,4 +369,23 @@ theorem IsingS.run_valid {η : Type} (mk : η → BW) : ∀ (ops : List IsingOp)
     unfold IsingS.run at this
     exact ⟨this.1, by rw [this.2, IsingS.step_ham]⟩
 
+/-! ### pairs of samplers -/
+
+/-- an invariant of the Hamiltonian-side state that every single-sampler operation preserves holds for both
+samplers after any interleaving of operations and swaps -/
+theorem HBPair.run_inv {σ μ o : Type} (f : σ → o → σ) (Inv : σ → Prop)
+    (hf : ∀ s x, Inv s → Inv (f s x)) : ∀ (ops : List (HBPairOp o)) (p : HBPair σ μ),
+    Inv p.a → Inv p.b → Inv (p.run f ops).a ∧ Inv (p.run f ops).b
+  | [], _, ha, hb => ⟨ha, hb⟩
+  | op :: t, p, ha, hb => by
+    unfold HBPair.run
+    simp only [List.foldl_cons]
+    have h : Inv (p.step f op).a ∧ Inv (p.step f op).b := by
+      cases op with
+      | left x => exact ⟨hf _ x ha, hb⟩
+      | right x => exact ⟨ha, hf _ x hb⟩
+      | swap => exact ⟨ha, hb⟩
+      | noswap => exact ⟨ha, hb⟩
+    exact HBPair.run_inv f Inv hf t (p.step f op) h.1 h.2
+
 end Qmc
